@@ -12,7 +12,7 @@ the output samples sit at: output sample `k` is at input position `first + off +
 namespace Pb.Crop
 
 inductive Err
-  | valueError | assertionError | indexError | typeError
+  | valueError | assertionError | indexError | typeError | keyError | attributeError
   deriving DecidableEq, Repr
 
 def Err.name : Err → String
@@ -20,6 +20,8 @@ def Err.name : Err → String
   | .assertionError => "AssertionError"
   | .indexError => "IndexError"
   | .typeError => "TypeError"
+  | .keyError => "KeyError"
+  | .attributeError => "AttributeError"
 
 /-- A Python `slice(start, stop, step)`; `none` = omitted. -/
 structure PySlice where
